@@ -24,6 +24,7 @@ pub fn sem_cfg() -> GenCfg {
         object_bias: 1,
         only_null: true,
         inter_nullable: false,
+        inter_lists: true,
     }
 }
 
@@ -272,6 +273,18 @@ impl<'a> Enumerator<'a> {
                         return self.values(&merged, unroll - 1);
                     }
                     return self.values(&merged, unroll);
+                }
+                // intersections of list types over scalar elements: a list has no undeclared part, so the exact values
+                // are the enumerated lists of any member that belong to every member
+                let scalar_lists = ms.iter().all(|m| {
+                    matches!(r.head(m), D::Array(_) | D::Tuple(_, _)) && !r.head(m).any_node(&mut |n| matches!(n, D::Object { .. } | D::Ref(_) | D::Inter(_) | D::Any))
+                });
+                if scalar_lists {
+                    let mut all = vec![];
+                    for m in ms {
+                        all.extend(self.values(r.head(m), unroll));
+                    }
+                    return all.into_iter().filter(|v| ms.iter().all(|m| r.member(m, v) == Tri::Yes)).collect();
                 }
                 // other intersections: members of the first that are members of the rest (these are values of the
                 // intersection, but not necessarily all of its exact values)
@@ -1151,7 +1164,10 @@ impl C07 {
             "keyof" => "keyof X".to_string(),
             _ => format!("X[{}]", match &case.y { D::StrLit(k) => crate::render::ts_string(k), _ => unreachable!() }),
         };
-        text.push_str(&format!("\nexport const Parsers = parse.buildParsers<{{ R: {} }}>();\n", expr));
+        // two more semantic computations in the same compilation (each re-materialises a named operand, with its own
+        // recursive helpers when the operand is recursive): Exclude<T, never> is T itself
+        let extra: String = xs.iter().map(|n| format!("; I{}: Exclude<{}, never>", n, n)).collect();
+        text.push_str(&format!("\nexport const Parsers = parse.buildParsers<{{ R: {}{} }}>();\n", expr, extra));
         let mut scratch = Outcome::default();
         let code = match crate::c01::compile_case(&text, &mut scratch, ctx, "C07") {
             Some(c) => c,
@@ -1159,12 +1175,24 @@ impl C07 {
                 if scratch.infra.is_some() {
                     out.infra = scratch.infra;
                 }
+                // a crash of the compiler on a program of the supported subset is a finding in its own right
+                // (e.g. a generated helper name defined twice trips an assertion); diagnostics are skipped
+                if let Some(v) = &scratch.violation {
+                    if v.signature.starts_with("panic:") || v.signature == "compile_crash" || v.signature == "compile_hang" {
+                        out.mismatch(ctx, &format!("source_level:{}", v.signature), format!("source-level program with three semantic computations: {}", v.what), v.detail.clone());
+                        return;
+                    }
+                }
                 out.label("source_level:compile_failed_skipped");
                 return;
             }
         };
         let q = json!({"q":"validateMany","parser":"R","values": case.values.iter().map(|v| v.to_tagged()).collect::<Vec<_>>(), "optsList":[null]});
-        let resp = match crate::c01::node_case(ctx, Some(&code), vec![q]) {
+        let mut qs = vec![q];
+        for n in &xs {
+            qs.push(json!({"q":"validateMany","parser":format!("I{}", n),"values": case.values.iter().map(|v| v.to_tagged()).collect::<Vec<_>>(), "optsList":[null]}));
+        }
+        let resp = match crate::c01::node_case(ctx, Some(&code), qs) {
             Ok(r) => r,
             Err(e) => {
                 out.infra = Some(e);
@@ -1176,6 +1204,31 @@ impl C07 {
             return;
         }
         out.label("source_level:ran");
+        // the identity computations: Exclude<T, never> validates like T
+        for (qi, (n, d)) in roots.iter().enumerate() {
+            let m = &resp["results"][1 + qi]["m"];
+            for (j, v) in case.values.iter().enumerate() {
+                let got = match m[j][0].as_i64() {
+                    Some(1) => true,
+                    Some(0) => false,
+                    _ => continue,
+                };
+                let expected = r.member(d, v);
+                if expected == Tri::Unspec {
+                    continue;
+                }
+                out.evals += 1;
+                if Tri::from_bool(got) != expected {
+                    out.mismatch(
+                        ctx,
+                        "source_level:exclude_identity",
+                        format!("the validator of `Exclude<{}, never>` {} a value that {} {} does", n, if got { "accepts" } else { "rejects" }, n, if got { "not contain" } else { "contain" }),
+                        json!({"program": text, "value": v, "validate": got, "operand": n}),
+                    );
+                    return;
+                }
+            }
+        }
         // TypeScript's Exclude<X,Y> keeps exactly the union members of X that are not assignable to Y.  Where every
         // member is wholly inside Y or wholly outside it (judged by complete enumeration), that is also the set
         // difference beff computes: the expected denotation is the union of the members that stay.
